@@ -58,6 +58,8 @@ func numAlphabet() []string {
 	sub := func(a *big.Int, k int64) string { return new(big.Int).Sub(a, big.NewInt(k)).String() }
 	add := func(a *big.Int, k int64) string { return new(big.Int).Add(a, big.NewInt(k)).String() }
 	return []string{"0", "1", "254", "255", "256", "65534", "65535", "65536", pow2(32).String(), sub(pow2(64), 1), pow2(64).String(), add(pow2(64), 2),
+		// where the decimal LENGTH and the machine word boundaries disagree: 2^31, 2^53, 2^63 (19 digits, above int64), 10^19-1 (19 digits), 10^19 (20 digits, below 2^64)
+		sub(pow2(31), 1), pow2(31).String(), add(pow2(53), 1), sub(pow2(63), 1), pow2(63).String(), add(pow2(63), 1), "9876543210987654321", "9999999999999999999", "10000000000000000000", "99999999999999999999",
 		pow2(80).String(), add(pow2(128), 255), sub(pow2(256), 1),
 		"", "abc", "1e3", " 1", "1 ", "0x10", "0b101", "1_000", "12a", "010", "+7"}
 }
